@@ -26,6 +26,7 @@ def dispatch (line : String) : String :=
     | "sweep" => cmdSweep args
     | "drain" => cmdDrain args
     | "msg" => cmdMsg args
+    | "tcp" => cmdTcp args
     | "frag" => cmdFrag args
     | "sq" => cmdSq args
     | "enc" => cmdEnc args
